@@ -263,7 +263,16 @@ def mon_c08(desc: Desc, views: list[View]) -> Optional[tuple[str, int]]:
     for r in desc.design["relations"]:
         if r["k"] == "before":
             involved |= set(desc.trans_for(r["a"])) | set(desc.trans_for(r["b"]))
+    ends = []
+    for r in desc.conflict_relations():
+        if r["prio"] != "U":
+            a = r["a"] if r["a"] in desc.bodies and desc.bodies[r["a"]].kind == "t" else desc.resolve(r["a"])
+            b = r["b"] if r["b"] in desc.bodies and desc.bodies[r["b"]].kind == "t" else desc.resolve(r["b"])
+            ends.append((a, b, r))
     for v in views:
+        for a, b, r in ends:  # the two sides of a prioritised conflict themselves (also when one transaction runs both)
+            if v.run[a] and v.run[b]:
+                return f"add_conflict({r['a']},{r['b']},{r['prio']}): both sides {a} and {b} run", v.idx
         for th, tl, r in pr:
             if v.run[tl] and fully_enabled(desc, v, th) and fully_enabled(desc, v, tl):
                 if v.run[th]:
